@@ -203,7 +203,7 @@ static void checkCase(verif::Run& run, const CaseId& id, const std::string& desc
         bool workless = true; for (int k : enabled) workless = workless && cons::isWorkless(specs[k]);
         if (workless && m > 0 && id.stateId == 4) {   // velocity manifold reached by projection: power must vanish up to |lambda||verr|
             LD bound = 0; for (int i = 0; i < std::min(m, (int)s.getUErr().size()); ++i) bound += fabsl(D.lambda[i]) * fabsl(s.getUErr()[i]);
-            run.residual("workless-power-on-velocity-manifold", (double)(fabsl(D.power) / (10 * bound + 1e-9L * (1 + psc))), 1, where, rp, typeKey);
+            run.residual("workless-power-on-velocity-manifold", (double)(fabsl(D.power) / (10 * bound + 1e-8L * (1 + psc))), 1, where, rp, typeKey);
             run.count("workless-power-checked");
         }
         if (D.power != 0) run.count("nonzero-power");
